@@ -768,18 +768,82 @@ def install(it):
                 finally: it.models[name] = saved
             raise Unsupported(name + ' on symbolic string')
         M[name] = m
-    conc_or_body('strings.Contains', lambda s, sub: sub in s)
-    conc_or_body('strings.HasPrefix', lambda s, p: s.startswith(p))
+
     conc_or_body('strings.HasSuffix', lambda s, p: s.endswith(p))
-    conc_or_body('strings.ContainsAny', lambda s, chars: any(c in s.decode('utf-8', 'replace') for c in chars.decode('utf-8', 'replace')))
-    conc_or_body('strings.ContainsRune', lambda s, r: (chr(r) in s.decode('utf-8', 'replace')) if 0 <= r < 0x110000 and not (0xd800 <= r < 0xe000) else False)
     conc_or_body('strings.IndexByte', lambda s, c: s.find(bytes([c])))
     conc_or_body('strings.Index', lambda s, sub: s.find(sub))
     conc_or_body('strings.IndexRune', lambda s, r: s.find(chr(r).encode('utf-8')) if 0 <= r < 0x110000 and not (0xd800 <= r < 0xe000) else -1)
     conc_or_body('strings.Count', lambda s, sub: (len(s.decode('utf-8', 'replace')) + 1) if sub == b'' else s.count(sub))
+    def sym_or_conc(name, conc, sym):
+        def m(it_, a):
+            if all(isinstance(x, (bytes, int, bool)) for x in a):
+                return conc(*a)
+            return sym(*a)
+        M[name] = m
+    def bv8(b): return b if is_sym(b) else z3.BitVecVal(b, 8)
+    def s_contains_rune(s, r):
+        # set membership without forking: s is a concrete ASCII set (the lexer's accept sets), r symbolic
+        if isinstance(s, bytes) and all(c < 0x80 for c in s):
+            if not s: return False
+            return it.simp_bool(z3.Or([r == c for c in sorted(set(s))]))
+        raise Unsupported('strings.ContainsRune on symbolic set')
+    sym_or_conc('strings.ContainsRune', lambda s, r: (chr(r) in s.decode('utf-8', 'replace')) if 0 <= r < 0x110000 and not (0xd800 <= r < 0xe000) else False, s_contains_rune)
+    def s_contains_any(s, chars):
+        if isinstance(chars, bytes) and all(c < 0x80 for c in chars):
+            els = it.str_els(s)
+            cs = []
+            for e in els:
+                if is_sym(e): cs.append(z3.Or([e == c for c in sorted(set(chars))]))
+                elif e in chars: return True
+            return it.simp_bool(z3.Or(cs)) if cs else False
+        raise Unsupported('strings.ContainsAny with symbolic chars')
+    sym_or_conc('strings.ContainsAny', lambda s, chars: any(c in s.decode('utf-8', 'replace') for c in chars.decode('utf-8', 'replace')), s_contains_any)
+    def s_contains(s, sub):
+        if isinstance(sub, bytes):
+            els = it.str_els(s)
+            n, k = len(els), len(sub)
+            if k == 0: return True
+            alts = []
+            for i in range(n - k + 1):
+                cs = []
+                ok = True
+                for j in range(k):
+                    e = els[i + j]
+                    if is_sym(e): cs.append(e == sub[j])
+                    elif e != sub[j]: ok = False; break
+                if not ok: continue
+                if not cs: return True
+                alts.append(z3.And(cs))
+            return it.simp_bool(z3.Or(alts)) if alts else False
+        raise Unsupported('strings.Contains with symbolic needle')
+    sym_or_conc('strings.Contains', lambda s, sub: sub in s, s_contains)
+    def s_has_prefix(s, p):
+        if isinstance(p, bytes):
+            els = it.str_els(s)
+            if len(els) < len(p): return False
+            cs = []
+            for e, c in zip(els, p):
+                if is_sym(e): cs.append(e == c)
+                elif e != c: return False
+            return it.simp_bool(z3.And(cs)) if cs else True
+        raise Unsupported('strings.HasPrefix with symbolic prefix')
+    sym_or_conc('strings.HasPrefix', lambda s, p: s.startswith(p), s_has_prefix)
+    def s_replace_sym(s, old, new, n):
+        # exact for a one-byte old string on (partly) symbolic bytes: forks per symbolic byte
+        if isinstance(old, bytes) and isinstance(new, bytes) and len(old) == 1 and (not is_sym(n)) and n < 0:
+            out = []
+            for e in it.str_els(s):
+                if is_sym(e):
+                    if it.branch(e == old[0]): out.extend(new)
+                    else: out.append(e)
+                elif e == old[0]: out.extend(new)
+                else: out.append(e)
+            return it.mkstr(out)
+        raise Unsupported('strings.Replace on symbolic string')
+
     def replace(s, old, new, n):
         return s.replace(old, new) if n < 0 else s.replace(old, new, n)
-    conc_or_body('strings.Replace', replace)
+    sym_or_conc('strings.Replace', replace, s_replace_sym)
     conc_or_body('strings.ReplaceAll', lambda s, o, n: s.replace(o, n))
     conc_or_body('strings.ToUpper', lambda s: s.decode('utf-8', 'replace').upper().encode())
     conc_or_body('strings.ToLower', lambda s: s.decode('utf-8', 'replace').lower().encode())
@@ -787,7 +851,19 @@ def install(it):
     def split(s, sep):
         parts = s.split(sep) if sep else [c.encode() for c in s.decode('utf-8', 'replace')]
         return SliceV(ArrayV(parts), 0, len(parts), len(parts))
-    conc_or_body('strings.Split', split)
+    def s_split_sym(s, sep):
+        if isinstance(sep, bytes) and len(sep) == 1:
+            parts = [[]]
+            for e in it.str_els(s):
+                if is_sym(e):
+                    if it.branch(e == sep[0]): parts.append([])
+                    else: parts[-1].append(e)
+                elif e == sep[0]: parts.append([])
+                else: parts[-1].append(e)
+            ps = [it.mkstr(p) for p in parts]
+            return SliceV(ArrayV(ps), 0, len(ps), len(ps))
+        raise Unsupported('strings.Split on symbolic string with this separator')
+    sym_or_conc('strings.Split', split, s_split_sym)
     def m_repeat(it_, a):
         return a[0] * a[1]
     M['strings.Repeat'] = m_repeat
@@ -832,13 +908,89 @@ def install(it):
             if r < 0 or r > 0x10ffff: return False
             return f(chr(r))
         M[name] = m
+    import json as _json, os as _os
+    _ut = None
+    def unitab():
+        nonlocal _ut
+        if _ut is None:
+            pth = _os.path.join(_os.environ.get('VERIF_DIR', '/verif'), '.cache', 'unitab.json')
+            _ut = _json.load(open(pth))
+        return _ut
+    def uni_hook(it_, name, r):
+        # exact for runes below U+0800 (table generated from the real unicode package); larger runes are outside the bound
+        if it.branch(r == 0xFFFD):
+            return False   # U+FFFD (what invalid UTF-8 decodes to) is a symbol: not a space, letter or digit
+        if it.branch(z3.Or(r < 0, r >= 0x800)):
+            it.stats.assumed_away += 1
+            it.stats.cuts['rune >= U+0800 (outside the bound of the unicode model)'] = it.stats.cuts.get('rune >= U+0800 (outside the bound of the unicode model)', 0) + 1
+            raise PathEnd('rune outside unicode model')
+        return it.simp_bool(z3.Or([z3.And(r >= lo, r <= hi) if lo != hi else r == lo for lo, hi in unitab()[name]]))
+    it.call_hooks.setdefault('unicode', uni_hook)
     uni_pred('unicode.IsSpace', lambda c: c in '\t\n\v\f\r \x85\xa0                　')
     uni_pred('unicode.IsLetter', lambda c: unicodedata.category(c).startswith('L'))
     uni_pred('unicode.IsDigit', lambda c: unicodedata.category(c) == 'Nd')
 
     # ------------------------------------------------------------------ strconv
     def err(msg): return Iface(ERR_TID, ErrV(msg.encode() if isinstance(msg, str) else msg))
+    def sym_parse(kind, s, extra, rsort):
+        els = [bv8(e) for e in it.str_els(s)]
+        key = (kind, len(els), extra)
+        fs = it.uf_parse.get(key)
+        if fs is None:
+            dom = [z3.BitVecSort(8)] * len(els)
+            fs = (z3.Function('%s_%s_%d_val' % (kind, extra, len(els)), *(dom + [rsort])) if els else z3.Const('%s_%s_0_val' % (kind, extra), rsort),
+                  z3.Function('%s_%s_%d_ok' % (kind, extra, len(els)), *(dom + [z3.BoolSort()])) if els else z3.Const('%s_%s_0_ok' % (kind, extra), z3.BoolSort()))
+            it.uf_parse[key] = fs
+        val = fs[0](*els) if els else fs[0]
+        ok = fs[1](*els) if els else fs[1]
+        if it.branch(ok):
+            return (val, None)
+        return (T.zero(T.id_of('int64')) if kind == 'ParseInt' else z3.FPVal(0.0, z3.Float64()), err('strconv.%s: parsing <symbolic>: invalid syntax' % kind))
+    it.uf_parse = {}
+    def parse_int_sym(s, base, bits):
+        # exact model of strconv.ParseInt on (partly) symbolic bytes for bases 0, 10, 16 within a length bound
+        # (no overflow possible): sign, base prefixes (base 0), digit validity, value. Underscores are invalid
+        # unless base == 0 (the callers in /repo strip them first anyway).
+        els = it.str_els(s)
+        if is_sym(base) or is_sym(bits) or base not in (0, 10, 16) or bits != 64:
+            return sym_parse('ParseInt', s, '%s_%s' % (base, bits), z3.BitVecSort(64))
+        def is_c(e, chars):
+            if is_sym(e): return it.branch(z3.Or([e == c for c in chars]))
+            return e in chars
+        bad = lambda: (0, err('strconv.ParseInt: parsing <symbolic>: invalid syntax'))
+        if not els: return bad()
+        neg = False
+        if is_c(els[0], b'+-'):
+            neg = is_c(els[0], b'-')
+            els = els[1:]
+            if not els: return bad()
+        b = base
+        if base == 0:
+            b = 10
+            if is_c(els[0], b'0') and len(els) > 1:
+                if is_c(els[1], b'xX'): b = 16; els = els[2:]
+                elif is_c(els[1], b'bB'): b = 2; els = els[2:]
+                elif is_c(els[1], b'oO'): b = 8; els = els[2:]
+                else: b = 8; els = els[1:]
+                if not els: return bad()
+        if len(els) > {2: 60, 8: 20, 10: 18, 16: 15}[b]:
+            raise Unsupported('ParseInt model: spelling longer than the no-overflow bound')
+        val = z3.BitVecVal(0, 64)
+        valid = []
+        for e in els:
+            e64 = z3.ZeroExt(56, bv8(e))
+            d = z3.If(z3.And(e64 >= 48, e64 <= 57), e64 - 48, z3.If(z3.And(e64 >= 97, e64 <= 122), e64 - 87, z3.If(z3.And(e64 >= 65, e64 <= 90), e64 - 55, z3.BitVecVal(99, 64))))
+            valid.append(z3.ULT(d, b))
+            val = val * b + d
+        ok = it.simp_bool(z3.And(valid))
+        if not it.branch(ok) if not isinstance(ok, bool) else not ok:
+            return bad()
+        val = z3.simplify(-val if neg else val)
+        return (val.as_long() - (1 << 64 if val.as_long() >> 63 else 0) if z3.is_bv_value(val) else val, None)
+
     def m_ParseInt(it_, a):
+        if not isinstance(a[0], bytes):
+            return parse_int_sym(a[0], a[1], a[2])
         s, base, bits = conc_str(a[0]), a[1], a[2]
         txt = s.decode('latin-1')
         try:
@@ -870,6 +1022,8 @@ def install(it):
         return (v, None)
     M['strconv.ParseInt'] = m_ParseInt
     def m_ParseFloat(it_, a):
+        if not isinstance(a[0], bytes):
+            return sym_parse('ParseFloat', a[0], '%s' % (a[1],), z3.Float64())
         s = conc_str(a[0]); txt = s.decode('latin-1')
         t = txt
         ok = re.fullmatch(r'[+-]?((\d[\d_]*)?\.?\d*([eE][+-]?\d+)?|0[xX][0-9a-fA-F_]*\.?[0-9a-fA-F_]*[pP][+-]?\d+|[iI]nf(inity)?|[nN]a[nN])', t) is not None
